@@ -4,9 +4,12 @@ import (
 	"encoding/json"
 	"expvar"
 	"fmt"
+	"os"
+	"path/filepath"
 	"sort"
 	"strconv"
 	"strings"
+	"testing/synctest"
 	"time"
 
 	"github.com/rqlite/rqlite/v10/verifx"
@@ -53,6 +56,18 @@ type c01Scenario struct {
 	// 2000-01-01T00:00:00Z); "jump" operations step it forward.
 	ClockMs int64   `json:"clock_ms"`
 	Ops     []c01Op `json:"ops"`
+	// Recover, when set, ends the run with the manual-recovery apply path: a last
+	// batch of writes, then node N is stopped uncleanly (crash image, or Close
+	// without snapshot) so that the tail of its log is not covered by a snapshot,
+	// a peers.json naming only itself is put into its raft directory, and it is
+	// reopened (store.RecoverNode rebuilds the database from snapshot + log).
+	Recover *c01Recover `json:"recover,omitempty"`
+}
+
+type c01Recover struct {
+	N    int     `json:"n"`
+	Mode string  `json:"mode"` // crash | stop
+	Reqs []c01Op `json:"reqs"`
 }
 
 func c01Gen(r *core.Rand, tier string) any {
@@ -153,6 +168,19 @@ func c01Gen(r *core.Rand, tier string) any {
 				sc.Ops = append(sc.Ops, c01Op{K: "run", Ms: r.Range(50, 3000)})
 			}
 		}
+	}
+	if r.Bool(0.4) {
+		rec := &c01Recover{N: 1 + r.Intn(sc.Nodes), Mode: []string{"crash", "stop"}[r.Intn(2)]}
+		for i := r.Range(1, 3); i > 0; i-- {
+			op := req()
+			op.N, op.Ep, op.Gap = 0, []string{"execute", "request"}[r.Intn(2)], 0
+			rec.Reqs = append(rec.Reqs, op)
+		}
+		// the very last statement certainly changes something
+		last := &rec.Reqs[len(rec.Reqs)-1]
+		last.Tx = false
+		last.Stmts = append(last.Stmts, sqlgen.Stmt{Kind: "insert", Table: "t1", SQL: fmt.Sprintf("INSERT INTO t1(a, b) VALUES(%d, 'last entry before recovery')", r.Intn(100000))})
+		sc.Recover = rec
 	}
 	return sc
 }
@@ -511,6 +539,131 @@ func c01Run(c *core.Ctx, raw json.RawMessage) {
 	c.Res.Trivial = c.Res.Probes["nd_stmts_acked"] == 0
 	d, _ := s.DumpNode(s.Nodes[1])
 	c.Sig(fmt.Sprintf("%d/%d", len(d), s.Nodes[1].Store.AppliedIndex()))
+	if sc.Recover != nil {
+		k.manualRecovery(&sc, class)
+	}
+}
+
+// manualRecovery exercises the fourth apply path: the database a node rebuilds
+// from its own snapshot + raft log during manual recovery (raft/peers.json)
+// must equal what the live replicas hold for the same log.
+func (k *c01Cluster) manualRecovery(sc *c01Scenario, class string) {
+	c, s, rec := k.c, k.s, sc.Recover
+	allAtCommit := func() bool {
+		l := s.Leader()
+		if l == nil {
+			return false
+		}
+		ci, err := l.Store.CommitIndex()
+		if err != nil {
+			return false
+		}
+		for _, n := range s.Nodes[1:] {
+			if n.Up && n.Store.AppliedIndex() != ci {
+				return false
+			}
+		}
+		return true
+	}
+	for i := range rec.Reqs {
+		op := &rec.Reqs[i]
+		l := s.Leader()
+		if l == nil || len(op.Stmts) == 0 {
+			continue
+		}
+		target := "/db/" + op.Ep + "?timeout=8s"
+		if op.Tx {
+			target += "&transaction"
+		}
+		var code int
+		ok := s.Do(fmt.Sprintf("final-req %d %s n%d x%d", i, op.Ep, l.Idx, len(op.Stmts)), 40*time.Second, func() { code, _ = c01HTTPJSON(l, target, op.Stmts) })
+		c.Log.Add("%d final req %d -> %d ok=%v", s.StepN, i, code, ok)
+	}
+	if !s.RunUntil(allAtCommit, 60*time.Second) {
+		c.Probe("recovery_skipped_not_settled")
+		return
+	}
+	if rec.N < 1 || rec.N >= len(s.Nodes) || !s.Nodes[rec.N].Up {
+		return
+	}
+	r := s.Nodes[rec.N]
+	var other *node.Node
+	for _, n := range s.Nodes[1:] {
+		if n.Up && n != r && n.Store.AppliedIndex() == r.Store.AppliedIndex() {
+			other = n
+			break
+		}
+	}
+	if other == nil {
+		return
+	}
+	// every entry of r's log must be committed and applied, so that "the log" is
+	// exactly the sequence the live replicas applied
+	applied := r.Store.AppliedIndex()
+	if st, err := r.Store.Stats(); err == nil {
+		if rs, ok := st["raft"].(map[string]any); ok {
+			if lli, ok := rs["last_log_index"].(int64); ok && uint64(lli) != applied {
+				c.Probe("recovery_skipped_log_tail_not_applied")
+				return
+			}
+		}
+	}
+	want, err := s.DumpNode(other)
+	if err != nil {
+		c.Discard("dump-failed: " + err.Error())
+		return
+	}
+	recov0 := c01StoreStat("num_recoveries")
+	switch rec.Mode {
+	case "stop":
+		r.Store.NoSnapshotOnClose = true
+		if !s.Do(fmt.Sprintf("stop-%d", r.Idx), 120*time.Second, func() { r.Stop() }) {
+			c.Discard("stop-before-recovery did not finish")
+			return
+		}
+		c.Fault("stop-without-snapshot")
+	default:
+		if err := s.Crash(r.Idx); err != nil {
+			c.Discard("crash-failed: " + err.Error())
+			return
+		}
+	}
+	// the recovered node forms a cluster of its own; keep the others away from it
+	var rest []string
+	for _, n := range s.Nodes[1:] {
+		if n != r {
+			rest = append(rest, n.HostName)
+		}
+	}
+	s.Net.Partition([]string{r.HostName}, rest)
+	peers := fmt.Sprintf(`[{"id": %q, "address": %q, "non_voter": false}]`, r.ID, r.RaftAddr)
+	if err := os.MkdirAll(filepath.Join(r.Dir, "raft"), 0o755); err == nil {
+		err = os.WriteFile(filepath.Join(r.Dir, "raft", "peers.json"), []byte(peers), 0o644)
+	}
+	if err != nil {
+		c.Discard("write peers.json: " + err.Error())
+		return
+	}
+	s.ClockOffset += time.Duration(1+c.Rng.Intn(100000)) * time.Second // the rebuild happens at yet another time
+	c.Log.Add("%d manual recovery of n%d after %s, log ends at applied index %d", s.StepN, r.Idx, rec.Mode, applied)
+	if err := s.Restart(r.Idx); err != nil {
+		c.Violate("recovery-failed", "node %s did not reopen with raft/peers.json after %s: %v", r.ID, rec.Mode, err)
+		return
+	}
+	synctest.Wait()
+	c.Fault("manual-recovery-" + rec.Mode)
+	c.ProbeN("manual_recoveries_performed", int(c01StoreStat("num_recoveries")-recov0))
+	got, err := s.DumpNode(r)
+	if err != nil {
+		c.Discard("dump-failed: " + err.Error())
+		return
+	}
+	c.Probe("recovered_node_compared")
+	if got != want {
+		c.Violate(class, "after manual recovery (raft/peers.json, node stopped by %s): %s rebuilt its database from a log ending at index %d, every entry of which was committed and applied by %s, but the rebuilt database (now at applied index %d) differs from %s's at index %d: %s (live replica first)",
+			rec.Mode, r.ID, applied, other.ID, r.Store.AppliedIndex(), other.ID, applied, sim.FirstDiff(want, got))
+		c.Log.Add("feats=[%s]", c01FeatsOf(sc.Ops))
+	}
 }
 
 func init() {
